@@ -133,6 +133,26 @@ package check
 //@ func recvFourFile
 //@   props C06 C11
 //@   at call append#0 before assert[location-is-attributed-to-the-workers-file] streq(arg1[0].StrFile, fourFileChan.strFile) && arg1[0].Loc == oneLoc
+// a location is left out only in the file that declares the variable (another file may use it at the very same line and
+// column) and only when it lies inside the declaration to be ignored
+//@   loop range:fourFileChan.findLocVec step [only-the-declaration-in-its-own-file-is-left-out] hits("append#0") == prev(hits("append#0")) ==>
+//@        streq(fourFileChan.strFile, ignoreDefineFile) && hits("IsInLocStruct#0") > prev(hits("IsInLocStruct#0"))
+//@   loop range:fourFileChan.findLocVec exits-early-only-if [every-location-found-is-examined] false
+//@ end
+
+// the single-file path (locals, highlight): the declaration is left out only when the file searched is the declaring one
+// (highlight searches the file of the cursor, which may use a global at the very position of its declaration elsewhere)
+//@ func (*AllProject).FindReferences
+//@   props C06 C11
+//@   loop range:analysisFour.FindLocVec exits-early-only-if [every-location-found-is-examined] false
+//@   loop range:analysisFour.FindLocVec step [only-the-declaration-in-its-own-file-is-left-out] hits("append#2") == prev(hits("append#2")) ==> streq(inFile, luaInFile)
+//@   unchecked pre:SetFindReferenceInfo.a-target-comes-with-its-name#0 the name list is that of a valid cursor expression (GetVarStruct, ValidFlag), checked by the request handlers before they call FindReferences
+//@ end
+
+// the collector is told which file declares the variable (the declaration is filtered there and nowhere else)
+//@ func handleAllFilesReference
+//@   props C06 C11
+//@   at call recvFourFile#* before assert[declaration-is-ignored-in-its-own-file-only] streq(arg3, referenceParam.fileName) && arg2 == referenceParam.ignoreDefineLoc && arg0 == defineVecs
 //@ end
 
 // ---- C15: members of a class come from EVERY definition of the class name ----
